@@ -8,11 +8,11 @@ ID = "C20"
 RULE = ("E-FULL: int2name(i) for every i in the index range compared in order with the "
         "shortlex enumeration of non-empty A-Z strings (itertools.product); every 3-digit "
         "code over 0-9a-fA-F and every 6-digit code over the tier's digit set, with and "
-        "without '#', through hex2rgb/hex2rgbstr/hex2html against int(.,16). Non-trivial: "
+        "without '#', through hex2rgb/hex2rgbstr/hex2html against int(.,16); for all 4096 three-digit codes a back-to-back call sequence of codes sharing a numeric value or prefix; one TikZ document with 750 (thorough 3000) labels whose macro names must be the shortlex names, pairwise distinct. Non-trivial: "
         "multi-letter names (a carry happened) / codes containing a letter digit.")
 ASSUMPTIONS = ["int(s, 16) and itertools.product are the trusted reference",
                "codes outside 3/6 hex digits are outside the property"]
-REQUIRED_COUNTERS = ("names_multi_letter", "codes_3digit", "codes_6digit")
+REQUIRED_COUNTERS = ("names_multi_letter", "codes_3digit", "codes_6digit", "adjacent_calls", "document_labels")
 HEX22 = "0123456789abcdefABCDEF"
 N_NAMES = 1000001
 
@@ -43,6 +43,9 @@ def plan(tier, seed):
         shards.append(["hex6", "".join(_digits6(seed, 0)), d])
     for d in range(8):
         shards.append(["hex6", "".join(_digits6(seed, 1)), d])
+    for d in range(16):
+        shards.append(["adjacent", d])
+    shards.append(["document", 750 if tier == "quick" else 3000])
     if tier == "thorough":
         for alpha in ("0123456789abcdef", "0123456789ABCDEF"):
             for d1 in range(16):
@@ -79,6 +82,34 @@ def check_code(U, code):
     return None
 
 
+def check_document(n):
+    """A TikZ document with n well separated labels: the per-label colour and text macro names are pairwise distinct
+    and are the shortlex names in label order."""
+    import re
+    from labella.scale import LinearScale
+    from labella.timeline import TimelineTex
+    data = [{"time": float(i * 30), "width": 10, "text": "t%d" % i} for i in range(n)]
+    L = float(n * 30)
+    try:
+        doc = TimelineTex(data, {"scale": LinearScale(), "domain": [0, L], "initialWidth": L + 40, "direction": "up",
+                                 "showTicks": False, "showBorder": True}).export()
+    except Exception as e:
+        return "EXC:document:" + type(e).__name__, "TimelineTex with %d labels raised %r" % (n, e)
+    want = list(itertools.islice(shortlex(), n))
+    for prefix in ("dotColor", "labelBgColor", "labelTextColor", "linkColor", "borderColor"):
+        names = re.findall(r"^\\definecolor\{%s([A-Z]+)\}" % prefix, doc, re.M)
+        if len(set(names)) != len(names):
+            dup = next(x for x in names if names.count(x) > 1)
+            return "C20:document-duplicate-name", "%d labels: colour name %s%s is defined for two labels" % (n, prefix, dup)
+        if names != want:
+            k = next(i for i, (a, b) in enumerate(zip(names + [None] * n, want)) if a != b)
+            return "C20:document-names", "%d labels: %s of label %d is %r, expected %r" % (n, prefix, k, (names + [None] * n)[k], want[k])
+    texts = re.findall(r"^\\def\\text([A-Z]+)\{", doc, re.M)
+    if texts != want:
+        return "C20:document-names", "%d labels: the text macros are not the shortlex names in label order" % n
+    return None
+
+
 def run_shard(shard):
     import labella.utils as U
     acc = Acc()
@@ -108,6 +139,36 @@ def run_shard(shard):
         acc.states = b - a
         acc.trans = b - a
         acc.sample({"fn": "int2name", "arg": a})
+        return acc
+    if kind == "adjacent":
+        # codes that denote different colours but share a numeric value or a prefix, converted back to back
+        # (the conversions are pure functions: an answer must not depend on the previous call)
+        d0 = "0123456789abcdef"[shard[1]]
+        for t in itertools.product("0123456789abcdef", repeat=2):
+            xyz = d0 + "".join(t)
+            seq = [xyz, "000" + xyz, xyz, "#" + xyz.upper(), xyz + "000", "".join(c + c for c in xyz), "000" + xyz, "#" + xyz]
+            acc.states += 1
+            for code in seq:
+                acc.evals += 1
+                acc.trans += 1
+                acc.counters["adjacent_calls"] += 1
+                bad = check_code(U, code)
+                if bad:
+                    acc.violation({"fn": "hex-seq", "arg": seq, "at": code}, bad[0] + ":after-other-code", bad[1], order=(5, xyz))
+            acc.nontriv += 1
+        acc.sample({"fn": "hex-seq", "arg": seq, "at": seq[1]})
+        return acc
+    if kind == "document":
+        n = shard[1]
+        bad = check_document(n)
+        acc.evals += 1
+        acc.states += n
+        acc.trans += n
+        acc.counters["document_labels"] += n
+        acc.nontriv += n
+        if bad:
+            acc.violation({"fn": "document", "arg": n}, bad[0], bad[1], order=(6, n))
+        acc.sample({"fn": "document", "arg": n})
         return acc
     if kind == "hex3":
         codes = ("".join(t) for t in itertools.product(HEX22, repeat=3))
@@ -155,6 +216,14 @@ def replay(case):
         if len(names) != b - a:
             return "int2name:collision", "only %d distinct names" % len(names)
         return None
+    if case["fn"] == "hex-seq":
+        for code in case["arg"]:
+            bad = check_code(U, code)
+            if bad:
+                return bad[0] + ":after-other-code", bad[1]
+        return None
+    if case["fn"] == "document":
+        return check_document(case["arg"])
     return check_code(U, case["arg"])
 
 
